@@ -27,7 +27,6 @@ BOUNDS = {
 }
 ASSUMPTIONS = ['which code a Python exception inside a function maps to is not demanded (any canonical code); it must be '
                'an error value the trap functions see',
-               'error literals inside trap functions are not checked (the statement makes the whole formula report them)',
                'undefined variables are not operators or function calls: trapping them is not demanded',
                'the #GETTING_DATA literal does not lex as one token and is not used as a literal; ERROR.TYPE of #ERROR! is '
                'not documented and not checked']
@@ -225,7 +224,11 @@ class Literals(Sub):
         for lit in LITERALS:
             for cname, _ in contexts(tier):
                 yield [lit, cname]
-            for extra in ('SUM({x},1)', 'SUM(1,{x})', 'LEN({x})', 'IF(TRUE,{x},2)', 'ABS({x})+1', '{{1,{x}}}'):
+            for extra in ('SUM({x},1)', 'SUM(1,{x})', 'LEN({x})', 'IF(TRUE,{x},2)', 'ABS({x})+1', '{{1,{x}}}',
+                          # the statement: a literal makes the WHOLE formula report it - also under a trapping
+                          # function, in an untaken branch, or as an ignored argument
+                          'IFERROR({x},"x")', 'IFERROR(1,{x})', 'IFNA({x},1)', 'ISERROR({x})', 'ISNA({x})',
+                          'ERROR.TYPE({x})', 'IF(TRUE,1,{x})', 'ISTEXT({x})', 'IFERROR(2*({x}),0)', 'FOKL({x})'):
                 yield [lit, extra]
 
     def check(self, env, case):
@@ -235,6 +238,7 @@ class Literals(Sub):
         expr = tmpl.replace('{x}', lit).replace('{{', '{').replace('}}', '}')
         env.nt()
         vars, funcs, cells = bind(env)
+        funcs = dict(funcs, FOKL=lambda *a: 1)
         out = env.evo(expr, vars=vars, funcs=funcs, cells=cells)
         if out != ['e', lit]:
             return fail('%r contains the literal %s; expected the whole formula to report it, got %r' % (expr, lit, out),
